@@ -50,7 +50,8 @@ ASSUMPTIONS = [
 ]
 NSHARDS = {"quick": 16, "thorough": 16}
 TIMEOUT_S = {"quick": 240, "thorough": 1800}
-REQUIRE = {"warm_receivers": 1500, "warm_hostile_feeds": 3000, "warm_altered_replays_rejected": 1200,
+REQUIRE = {"inflight_datagrams_fed": 500, "inflight_genuine_memo_delivered_intact": 100,
+           "inflight_first_claimant_keeps_memo_id": 30, "warm_receivers": 1500, "warm_hostile_feeds": 3000, "warm_altered_replays_rejected": 1200,
            "midreuse_delivered_attributed_to_second_signer": 20, "midreuse_stale_gram_not_fused": 6,
            "rotation_old_key_rejected": 12, "rotation_current_key_delivered": 24,
            "unknown_transferable_vid_rejected": 12, "unknown_digest_vid_rejected": 6, "faults_injected": 20000, "fault_sites": 900, "fault_kinds": 8, "rejected_by_verify": 3000,
@@ -169,7 +170,7 @@ def cases(tier, seed, shard, nshards):
                                        "offsets": offs[a:a + step], "nvalues": 3 if quick else 12,
                                        "second": (a // step) % 2 == 1}
                             i += 1
-                    for what in ("warm-edit", "warm-reuse"):
+                    for what in ("warm-edit", "warm-reuse", "inflight-reuse"):
                         if i % nshards == shard:
                             yield {"kind": what, "cfg": cfg, "authic": authic, "n": n}
                         i += 1
@@ -381,6 +382,8 @@ def run_case(case, ctx):
         return run_rotation(case, ctx)
     if kind.startswith("warm-"):
         return run_warm(case, ctx)
+    if kind == "inflight-reuse":
+        return run_inflight(case, ctx)
     cfg, authic = case["cfg"], case["authic"]
     code, curt = cfg["code"], cfg["curt"]
     signed = cfg["signer"] is not None
@@ -704,6 +707,67 @@ def run_warm(case, ctx):
             finally:
                 sc.close()
     ctx.nontrivial([kind, code, curt, authic, n])
+
+
+def run_inflight(case, ctx):
+    """While V's memo is still INCOMPLETE a second key holder E (own key pair, validly self-signed grams) re-uses its
+    memo id: a zeroth gram with another body/count, non-zeroth duplicates with another body, in either encoding.
+    Whatever is delivered under V's vid must be exactly V's memo; E's text may only come out under E's vid."""
+    cfg, authic, n = case["cfg"], case["authic"], case["n"]
+    code, curt = cfg["code"], cfg["curt"]
+    ncode = Memoer.Pairs[code]
+    keep = ms.keep_of([0, 1, 2, SECOND_D])
+    ms.reset_mids()
+    try:
+        text, vid, grams, gcodes, _tx = build_seed(cfg, max(2, n), "inflight-memo")
+    except Exception as ex:
+        ctx.violation(ms.escape_key(ex, "tx-escape"), f"could not produce seeds for {cfg}: {ex!r}")
+        return
+    n = len(grams)
+    mid = gram_mid(grams[0], gcodes[0], curt)
+    for who in (SECOND_B, SECOND_D):
+        evid = ms.signer(who)[0]
+        for ecurt in (curt, not curt):
+            e0 = craft(who, code, ecurt, n, mid, b"<E-FORGED-HEAD>")            # same count as V's memo
+            e0one = craft(who, code, ecurt, 1, mid, b"<E-one-gram>")            # claims the memo has one gram
+            e0two = craft(who, code, ecurt, 2, mid, b"<E-two-")
+            e1 = craft(who, ncode, ecurt, 1, mid, b"gram-memo>")                 # E-signed non-zeroth duplicate
+            elast = craft(who, ncode, ecurt, n - 1, mid, b"<E-FORGED-TAIL>")
+            own = {("<E-two-gram-memo>", evid), ("<E-one-gram>", evid)}
+            rest = grams[1:]
+            plans = [
+                ("V's zeroth, E's self-signed zeroth with the same memo id, V's remaining grams", [grams[0], e0] + rest),
+                ("V's zeroth, E's zeroth claiming count 1, V's remaining grams", [grams[0], e0one] + rest),
+                ("V's zeroth, E's non-zeroth duplicate of gram 1, V's remaining grams", [grams[0], e1] + rest),
+                ("V's grams except the last, E's duplicate of the last gram, V's last gram",
+                 grams[:-1] + [elast, grams[-1]]),
+                ("V's grams except the last, E's zeroth, V's last gram", grams[:-1] + [e0, grams[-1]]),
+                ("V's zeroth, V's zeroth again, E's zeroth twice, V's rest", [grams[0], grams[0], e0, e0] + rest),
+                ("E's zeroth (count 2) first, V's grams, then E's gram 1", [e0two] + grams + [e1]),
+                ("E's zeroth first, V's zeroth, E's gram 1, V's rest", [e0two, grams[0], e1] + rest),
+            ]
+            for k, (what, seq) in enumerate(plans):
+                ctx.count("faults_injected")
+                sc = Scenario(ctx, authic, {(text, vid)} | own,
+                              f"inflight-reuse {what}; E has a {evid[0]} vid, E's grams "
+                              f"{'binary' if ecurt else 'base64'} (code={code} curt={curt} n={n})", keep=keep,
+                              api="once" if k % 3 == 2 else "all")
+                try:
+                    ok = True
+                    for g in seq:
+                        ctx.count("inflight_datagrams_fed")
+                        if not sc.feed(g, "fault" if g not in grams else "genuine", "wire"):
+                            ok = False
+                            break
+                    if ok and authic:
+                        got = [(t, v) for t, _s, v in sc.rx.inbox]
+                        if k < 6 and got == [(text, vid)]:
+                            ctx.count("inflight_genuine_memo_delivered_intact")
+                        elif k >= 6 and all(x in own for x in got):
+                            ctx.count("inflight_first_claimant_keeps_memo_id")
+                finally:
+                    sc.close()
+    ctx.nontrivial(["inflight-reuse", code, curt, authic, n])
 
 
 OLDKEY, NEWKEY, DIGEST = 22, 25, 23      # memoshim.signer indices: 22 and 25 have D vids, 23 an E vid
